@@ -577,6 +577,18 @@ Definition drop_close (s : st) (c : nat) : st :=
       end
   end.
 
+(** What the code did before the repair of H30 (cabaa94) when the kernel answered the CLOSE of a
+    [close()] future with EINTR (the file's flush was interrupted; as with close(2) the descriptor
+    is closed all the same): the generic restart of interrupted operations put the future back to
+    "not started", and its next poll submitted the same CLOSE again. Not part of [step]: the code as
+    it is returns the error to the caller and the future has finished (for the descriptor accounting
+    that is [CDone], like a CLOSE answered with 0). Kept for the refutation lemma. *)
+Definition restart_close_h30 (s : st) (c : nat) : st :=
+  match nth_error (closes s) c with
+  | Some f => match c_st f with CDone => set_close s c (with_cst f CNotStarted) | _ => s end
+  | None => s
+  end.
+
 (** [AsyncFd::from_raw_fd] on a descriptor opened outside the ring. *)
 Definition adopt (s : st) (fd : N) : st :=
   if fresh s (fd, Regular) then add_handle (issue s [(fd, Regular)]) (wrap fd Regular) else s.
